@@ -173,6 +173,11 @@ func (h *harness) evaluate(c *Case) *Eval {
 	ev.Ref = RunRef(b, doc, c.OpName, vars, c.World)
 	h.oracles(ev)
 
+	// the theorems' hypothesis on parsed documents: distinct selection nodes have distinct positions
+	if stats.DupPositions > 0 {
+		h.corr(ev, "positions-not-distinct", fmt.Sprintf("%d selection nodes share a (line, column) with an earlier one", stats.DupPositions))
+	}
+
 	// model
 	if h.model != nil {
 		line := hx.N("case", c.Schema.Sexp(), docSexp, c.World.Sexp(), hx.A(c.OpName), hx.A("auto")).String()
@@ -382,9 +387,10 @@ func (h *harness) record(c *Case, ev *Eval, family string) {
 	okProp := ev.Kind != "property" && ev.Kind != "crash"
 	run.Oblige("oracle: data = Ref.data (ordered), required ⊆ errors ⊆ all by (path, locations), each failure-null explained exactly once", "oracle", 1, okProp, ev.What)
 	if h.model != nil {
-		run.Oblige("correspondence: model observable = graphql.Execute observable (ordered data, errors in order)", "correspondence", 1, !(ev.Kind == "correspondence" && ev.Oracle != "leanspec-vs-goref"), ev.What)
+		run.Oblige("correspondence: model observable = graphql.Execute observable (ordered data, errors in order)", "correspondence", 1, !(ev.Kind == "correspondence" && ev.Oracle != "leanspec-vs-goref" && ev.Oracle != "positions-not-distinct"), ev.What)
 		run.Oblige("correspondence: Lean Spec (data, all, required) = Go Ref", "correspondence", 1, !(ev.Kind == "correspondence" && ev.Oracle == "leanspec-vs-goref"), ev.What)
 	}
+	run.Oblige("hypothesis: selection nodes of the parsed document have pairwise distinct (line, column)", "srcfact", 1, ev.Oracle != "positions-not-distinct", ev.What)
 }
 
 // check evaluates a case, records it, and on failure shrinks and reports it.
